@@ -43,6 +43,12 @@ CLAIMED = {
   "C13": ("CrossHair (symbolic execution with z3) of the real FilteredConfigParser over symbolic index lists and flags: every view equals the specification filter over the unfiltered list (order preserved), and two views of one parsed file with independent settings, read in either order, each equal their own specification - 'Confirmed over all paths' required, counterexamples replayed; differential replay of every species subset through the real potable entry point against the hand-edited file",
           "include/exclude lists of <= 3 labels (repeats, any order, unknown label, empty) over pair, EAM and Finnis-Sinclair models; two-view histories (<= 1 label each quick, <= 2 thorough); every subset of species x include/exclude x text targets (spreadsheets in thorough) through potable",
           "labels are opaque to the filter (membership tests only), so the 4-label universes per model stand for all labels; the differential layer is concrete", "3 C13"),
+  "C14": ("CrossHair (z3) over the real ConfigParser._init_config_parser / potable._make_config_parser / _query_actions with symbolic operation sequences (kind, section, key spelling, value as symbolic indices into candidate lists) against a dict-of-dicts model of editing the file by hand; every condition must be 'Confirmed over all paths'; counterexamples replayed on real INI text; potable-with-options versus hand-edited file differential",
+          "sequences of <= 2 overrides/removals and <= 1 addition over 4 sections x 12 key spellings (whitespace variants, absent keys), removal of a section's last key, CLI merging (same item, different sections, removals after overrides), [Table-Form:NAME] items, --list-items/--item-value over every subset of 9 section kinds",
+          "keys are opaque apart from whitespace, so the candidate lists stand for all keys; INI text parsing itself is stubbed by read_dict in the conditions and real in the replays", "3 C14"),
+  "C15": ("CrossHair (z3) over the real ConfigParser accessors with symbolic choices of variable names (incl. names equal to keys of other sections), values, consuming section kind and referenced section name; the file with [Variables]/placeholders must give exactly the accessor results of the file without / with values substituted by hand; confirmed over all paths; templated versus substituted file through potable",
+          "1-2 unreferenced variables x 14 names x 3 values (plain and Finnis-Sinclair); ${NAME} in each of 7 section kinds; ${SECTION:KEY} with whitespace in the key; nested ${SECTION:KEY} -> ${name} with section names containing blanks",
+          "configparser's text-level parsing is outside (conditions inject sections with read_dict; replays use real text); a placeholder named like a key of its own section refers to that key by the INI rules", "3 C15"),
   "C17": ("fault injection with a symbolic failing ordinal: every function evaluation compares its index with one symbolic integer k, the SYMX explorer splits on the z3-feasible classes of k (N+1, N discovered) through the real write()/action_tabulate code with a recording sink / real file; a z3 completeness VC shows the explored classes cover every integer k; each partial-output path is replayed with the model's concrete k",
           "for every tabulation target, every position k of the failing evaluation (pair, density, embedding, dipole, quadrupole functions) on the stated grids: nothing written and the exception propagates; no failure: whole table; large grids (size-dependent buffering) with k in a stated candidate set",
           "loop counts concrete per run (small grids exhaustive in k; large grids over a candidate set of k); failures modelled as exceptions leaving the callable; potable end-to-end runs on real files are a concrete replay layer", "3 C17"),
